@@ -42,6 +42,7 @@ type World struct {
 	unbound   []string
 	allTypes  map[string]*types.Package
 	extDir    string
+	stmtCache map[token.Pos]string
 }
 
 func loadWorld(repo string, patterns []string, extDir string) (*World, error) {
@@ -399,6 +400,33 @@ func (w *World) nodeTextAt(pos token.Pos) string {
 		}
 	}
 	return ""
+}
+
+// stmtTextAt: source text of the innermost simple statement containing pos.
+func (w *World) stmtTextAt(pos token.Pos) string {
+	if t, ok := w.stmtCache[pos]; ok {
+		return t
+	}
+	p := w.fset.Position(pos)
+	f := w.fileOf[p.Filename]
+	t := ""
+	if f != nil {
+		path, _ := astutil.PathEnclosingInterval(f, pos, pos)
+		for _, n := range path {
+			switch n.(type) {
+			case *ast.AssignStmt, *ast.IncDecStmt, *ast.ReturnStmt, *ast.ExprStmt, *ast.DeferStmt, *ast.GoStmt, *ast.SendStmt:
+				t = w.nodeText(n)
+			}
+			if t != "" {
+				break
+			}
+		}
+	}
+	if w.stmtCache == nil {
+		w.stmtCache = map[token.Pos]string{}
+	}
+	w.stmtCache[pos] = t
+	return t
 }
 
 // scopeObject finds the object `name` denotes at pos inside fn.
